@@ -24,7 +24,7 @@ MANIFEST = {
             "Model/FactoryTrace.v computes the registry history of a whole start; c04_factory_conforms proves, for every "
             "scenario and both variants of the code, that it is in the strict protocol language (so the three parts hold "
             "of every start), with erasure and replay theorems tying the traced model to Model/Factory.v; the recorded "
-            "registry calls of real starts of generated wiring scenarios are compared with the model history op by op",
+            "registry calls of real starts of generated wiring scenarios are compared with the model history op by op; the registry history of whole starts of the extended model conforms to the strict protocol (c04_factory_conforms_extended) and leaves the registry clean (c04_start_leaves_registry_clean_extended)",
     "design_ref": "DESIGN.md 5 C04, Appendix A",
     "note": "trusted: Coq kernel + vm_compute; hand-written model of singleton_component_registry.go; Go driver (script "
             "executor, tracing wrapper installed by reflection), Python generators; hand-written Model/Factory.v + "
